@@ -475,6 +475,12 @@ func (cc *checkCtx) writeReplay(o *Obligation, path string, doReplay bool) bool 
 		"solver_output": trunc(o.Raw, 4000),
 	}
 	reproduced := false
+	if o.Kind == "bounded" && strings.Contains(o.Raw, "GOWP-BOUNDED-FAIL") {
+		// the stand-in ran the real code on the input it prints: that is the failing input
+		rec["replay_output"] = "failing input found by the executable stand-in on the real code (see solver_output)"
+		rec["replay_reproduced"] = true
+		reproduced = true
+	}
 	if !doReplay {
 		rec["replay_output"] = "replay skipped: more than 6 violations in this run (replays are capped)"
 	}
